@@ -74,6 +74,7 @@ func runStack(c *mon.Ctx) {
 			if c.Prop != "C03" {
 				stackStatsd(c, r.Fork(3), kinds)
 			}
+			stackMultiValues(c, r.Fork(4), kinds)
 		}
 	})
 }
@@ -749,4 +750,100 @@ func stackMultiTags(c *mon.Ctx, r *mon.Rand) {
 		}
 	}
 	c.Event("multi-children-checked", int64(n))
+}
+
+// stackMultiValues: a scope over a multi reporter (cached or plain, 2-3
+// recording children) with two scopes whose metrics have different names and
+// tags but the same joined rendering ("inflight" {route:"GET /v1+accept=json"}
+// and "inflight+route=GET /v1" {accept:"json"}), plus an ordinary one: every
+// child receives each identity's own values.
+func stackMultiValues(c *mon.Ctx, r *mon.Rand, kinds map[string]bool) {
+	n := r.Range(2, 3)
+	cached := r.Bool()
+	recs := make([]*mon.Recorder, n)
+	var plain []tally.StatsReporter
+	var cach []tally.CachedStatsReporter
+	for i := range recs {
+		if cached {
+			cr := mon.NewCachedRec(true)
+			recs[i], cach = cr.Recorder, append(cach, cr)
+		} else {
+			pr := mon.NewPlainRec(true)
+			recs[i], plain = pr.Recorder, append(plain, pr)
+		}
+	}
+	opts := tally.ScopeOptions{OmitCardinalityMetrics: true}
+	if cached {
+		opts.CachedReporter = multi.NewMultiCachedReporter(cach...)
+	} else {
+		opts.Reporter = multi.NewMultiReporter(plain...)
+	}
+	root, _ := vNewRoot(opts, 0, uint(r.Range(0, 2)))
+	type idn struct {
+		name string
+		tags map[string]string
+	}
+	ids := []idn{
+		{"inflight", map[string]string{"route": "GET /v1+accept=json"}},
+		{"inflight+route=GET /v1", map[string]string{"accept": "json"}},
+		{"plainname", map[string]string{"k": r.Ident(3)}},
+	}
+	if r.Bool() {
+		ids[0], ids[1] = ids[1], ids[0]
+	}
+	desc := map[string]interface{}{"mode": "stack/multi-values", "children": n, "cached": cached, "identities": fmt.Sprint(ids)}
+	c.Eval(1)
+	rounds := r.Range(1, 3)
+	c.Guard("panic-scope-multi", func() interface{} { return desc }, func() {
+		for k := 0; k < rounds; k++ {
+			for i, id := range ids {
+				sc := root.Tagged(mon.CopyTags(id.tags))
+				sc.Counter(id.name).Inc(int64(1 + 10*i))
+				sc.Gauge(id.name + "_g").Update(float64(100*(k+1) + i))
+				sc.Timer(id.name + "_t").Record(time.Duration(1000*(k+1)+i) * time.Microsecond)
+				sc.Histogram(id.name+"_h", tally.ValueBuckets{10}).RecordValue(1)
+				if i > 0 {
+					sc.Histogram(id.name+"_h", tally.ValueBuckets{10}).RecordValue(1)
+				}
+			}
+			tally.VerifReportPass(root)
+		}
+	})
+	bad := func(kind, why string) {
+		if kinds[kind] {
+			c.Violation("stack-multi/"+kind, map[string]interface{}{"why": why, "case": desc})
+		}
+	}
+	for ci, rec := range recs {
+		log, agg, _ := rec.Snapshot()
+		for i, id := range ids {
+			if got, want := agg[mon.IdentKey(id.name, id.tags)].Sum, int64(rounds*(1+10*i)); got != want {
+				bad("counter", fmt.Sprintf("child %d: counter %q %v received %d in total, %d was added", ci, id.name, id.tags, got, want))
+			}
+			if got, want := agg[mon.IdentKey(id.name+"_g", id.tags)].LastBits, math.Float64bits(float64(100*rounds+i)); got != want {
+				bad("gauge", fmt.Sprintf("child %d: gauge %q %v ends on %v, last update %v", ci, id.name+"_g", id.tags, math.Float64frombits(got), math.Float64frombits(want)))
+			}
+			hw := int64(rounds)
+			if i > 0 {
+				hw *= 2
+			}
+			if got := agg[mon.BucketKeyV(id.name+"_h", id.tags, -math.MaxFloat64, 10)].Sum; got != hw {
+				bad("histogram", fmt.Sprintf("child %d: histogram %q %v bucket (-max,10] received %d samples, %d recorded", ci, id.name+"_h", id.tags, got, hw))
+			}
+			var timers []int64
+			for _, ev := range log {
+				if ev.Kind == mon.EvTimer && ev.Name == id.name+"_t" && mon.TagsEqual(ev.Tags, id.tags) {
+					timers = append(timers, ev.I)
+				}
+			}
+			var wantT []int64
+			for k := 0; k < rounds; k++ {
+				wantT = append(wantT, int64(time.Duration(1000*(k+1)+i)*time.Microsecond))
+			}
+			if fmt.Sprint(timers) != fmt.Sprint(wantT) {
+				bad("timer", fmt.Sprintf("child %d: timer %q %v received %v, recorded %v", ci, id.name+"_t", id.tags, timers, wantT))
+			}
+		}
+	}
+	c.Event("multi-children-value-checks", int64(n*len(ids)))
 }
